@@ -337,7 +337,7 @@ def jobs(tier, seed):
     seqs = [s for n in (1, 2) for s in itertools.product(TRANSFORMS, repeat=n)]
     if tier == 'thorough': seqs += list(itertools.product(TRANSFORMS, repeat=3))
     for j, nl in enumerate(nls):
-        for style in (('verilog', 'bench', 'lean') if tier == 'thorough' else (('verilog', 'bench', 'lean')[j % 3],)):
+        for style in (('verilog', 'bench', 'lean', 'vbf') if tier == 'thorough' else (('verilog', 'bench', 'lean', 'vbf')[j % 4],)):
             for seq in seqs: J.append(('seq', (('nl', nl.to_json(), style), seq)))
     for r in netlist.G4:
         for seq in (('copy',), ('pickle',), ('elim',), ('elim', 'copy', 'pickle')): J.append(('seq', (r, seq)))
